@@ -331,6 +331,9 @@ func runC05(c *report.Ctx) {
 		}
 	}
 
+	ruleMasterKeyWipeAfterSuccess(c, G)
+	rulePassphraseHashedWhole(c)
+
 	// ---- (4) premature wipes ------------------------------------------------------------------------------------------
 	ruleUseAfterWipe(c)
 
